@@ -319,7 +319,11 @@ func genCw(r *rand.Rand) string {
 		cur = 0
 	}
 	for k := 0; k <= n; k++ {
-		switch r.Intn(12) {
+		x := r.Intn(12)
+		if k == 0 && x >= 3 && x <= 5 && r.Intn(3) > 0 {
+			x = 6 // the first attempt mostly lags behind the bound
+		}
+		switch x {
 		case 0:
 			sc = append(sc, "err")
 			continue
@@ -377,9 +381,12 @@ func generate(seed int64, thorough bool) []string {
 	}
 	wide := strings.Contains(getenv("VERIF_C13_WIDE_TTL", "1"), "1")
 	var o []string
-	o = append(o, genAr(r, 400*mul)...)
-	for c := 0; c < 250*mul; c++ {
-		o = append(o, genSeq(r, c, thorough && c%10 == 0, wide)...)
+	conc := getenv("VERIF_C13_ONLY", "") == "conc" // only the concurrent classes (run under the race detector)
+	if !conc {
+		o = append(o, genAr(r, 400*mul)...)
+		for c := 0; c < 250*mul; c++ {
+			o = append(o, genSeq(r, c, thorough && c%10 == 0, wide)...)
+		}
 	}
 	for c := 0; c < 250*mul; c++ {
 		sc := 0
@@ -388,10 +395,10 @@ func generate(seed int64, thorough bool) []string {
 		}
 		o = append(o, genSf(r, c, sc)...)
 	}
-	for c := 0; c < 120*mul; c++ {
+	for c := 0; c < 120*mul && !conc; c++ {
 		o = append(o, genCw(r))
 	}
-	for c := 0; c < 20*mul; c++ {
+	for c := 0; c < 20*mul && !conc; c++ {
 		o = append(o, genLo(r)...)
 	}
 	o = append(o, ln("mo", "200"))
